@@ -993,11 +993,14 @@ def check_c2s(case):
                 pass
             # the source expression itself in 50-digit arithmetic: if that disagrees with CasADi's double result, rounding of
             # an intermediate decides the value at this point (exact ties of fmod / floor / comparisons): not a conversion error
-            if t[0] != "mat":
+            if True:
                 try:
-                    exact = mp_eval_tree(t, case["point"])
+                    near_ = []
+                    exact = mp_eval_tree(t[1][i][j] if t[0] == "mat" else t, case["point"], near=near_)
                     if isinstance(exact, complex) or not math.isfinite(exact) or abs(exact - g) > 1e-9 * abs(g) + floor:
                         continue
+                    if near_:
+                        continue  # a jump of fmod / remainder / floor / a comparison is missed by less than 1e-9 (not hit exactly)
                 except Exception:
                     continue
             # discount ill-conditioned points (value jumps under a 1e-12 perturbation of the inputs)
@@ -1012,7 +1015,7 @@ def check_c2s(case):
     require(checked > 0)
 
 
-def mp_eval_tree(t, point, dps=50):
+def mp_eval_tree(t, point, dps=50, near=None):
     """The CasADi-side tree evaluated in 50-digit arithmetic (what the expression means mathematically; selections evaluate
     only the selected branch).  Used only to decide whether CasADi's own double evaluation is trustworthy at a point: if the
     two disagree, rounding of intermediates decides the value there (fmod / floor / comparisons at an exact tie such as
@@ -1022,6 +1025,11 @@ def mp_eval_tree(t, point, dps=50):
     with mp.workdps(dps):
         one, zero = mp.mpf(1), mp.mpf(0)
         b = lambda v: one if v else zero
+
+        def _near(dist, scale_):
+            # a discontinuity that is missed by less than 1e-9 relative - but not hit exactly - is decided by rounding
+            if near is not None and 0 < dist < mp.mpf(10) ** -9 * (1 + abs(scale_)):
+                near.append(True)
 
         def ev(t):
             k = t[0]
@@ -1038,6 +1046,8 @@ def mp_eval_tree(t, point, dps=50):
             if k == "sq": return a[0] * a[0]
             if k == "twice": return 2 * a[0]
             if k == "inv": return 1 / a[0]
+            if k in ("floor", "ceil"):
+                _near(abs(a[0] - mp.nint(a[0])), a[0])
             if k in ("exp", "log", "sqrt", "sin", "cos", "tan", "asin", "acos", "atan", "floor", "ceil", "erf", "sinh", "cosh", "tanh",
                      "asinh", "acosh", "atanh", "log1p"):
                 return getattr(mp, k)(a[0])
@@ -1052,14 +1062,19 @@ def mp_eval_tree(t, point, dps=50):
             if k == "cpow": return a[0] ** mp.mpf(float(t[2]))
             if k == "fmod":
                 q = a[0] / a[1]
+                _near(abs(q - mp.nint(q)), q)
                 return a[0] - a[1] * (mp.floor(q) if q >= 0 else mp.ceil(q))
             if k == "remainder":
-                return a[0] - a[1] * mp.nint(a[0] / a[1])  # nint rounds half to even
+                q = a[0] / a[1]
+                _near(abs(abs(q - mp.floor(q)) - mp.mpf(1) / 2), q)
+                return a[0] - a[1] * mp.nint(q)  # nint rounds half to even
             if k == "fmin": return min(a[0], a[1])
             if k == "fmax": return max(a[0], a[1])
             if k == "atan2": return mp.atan2(a[0], a[1])
             if k == "hypot": return mp.hypot(a[0], a[1])
             if k == "copysign": return abs(a[0]) if a[1] >= 0 else -abs(a[0])
+            if k in ("lt", "le", "eq", "ne", "gt", "ge"):
+                _near(abs(a[0] - a[1]), a[0])
             if k == "lt": return b(a[0] < a[1])
             if k == "le": return b(a[0] <= a[1])
             if k == "eq": return b(a[0] == a[1])
